@@ -92,26 +92,19 @@ type c19Scenario struct {
 	mix      [c19NumKinds]int
 	classes  map[string]bool
 	kindsRun []string
-	excluded2 int
 	knownHits map[string]int
 	wholePool int // out of 10: ClaimAffinity / ReleaseAffinity target the whole v4 pool
 	pool4     string
 }
 
-// c19SigAssignIPConflict: AssignIP increments the handle record, then writes the block; when
-// the block write hits a CAS conflict it retries the whole iteration (ipam.go AssignIP:
-// "CAS error assigning IP - retry" -> continue) without taking the increment back, so every
-// conflict - real concurrency, no fault needed - leaves the handle record one too high.
-const c19SigAssignIPConflict = "c19-assignip-cas-retry-handle-overcount"
+// Finding c19-assignip-cas-retry-handle-overcount (fixed in the tree, a25b809): AssignIP retried
+// after a block CAS conflict without taking its handle increment back.
+// TestVerifC19RegressAssignIPConflict keeps the reproducer.
 
-// c19SigSharedHandleCache: ReleaseIPs with more than two addresses lists all handles once and
-// passes the same *model.KVPair per handle to every per-block goroutine (ipam.go ReleaseIPs ->
-// releaseIPsFromBlock -> decrementHandle(..., handleMap[handleID])).  decrementHandle mutates
-// that object in place, so when one handle has addresses in two of the blocks being released,
-// the goroutine that writes first also persists the other goroutine's in-memory decrement; the
-// other then gets a CAS conflict, re-reads and decrements again: the handle record under-counts
-// (and in real concurrency this is also a Go data race).
-const c19SigSharedHandleCache = "c19-releaseips-shared-handle-cache-double-decrement"
+// Finding c19-releaseips-shared-handle-cache-double-decrement (fixed in the tree, a2ad409):
+// ReleaseIPs with more than two addresses handed the same cached handle KVPair to every per-block
+// goroutine; a handle with addresses in two released blocks was decremented twice after a CAS
+// retry.  TestVerifC19RegressSharedHandleCache keeps the reproducer.
 
 func c19BlockOf(addr string) string {
 	a := netip.MustParseAddr(addr)
@@ -126,9 +119,6 @@ func c19BlockOf(addr string) string {
 // AutoAssign(num>1, handle) incremented the handle record by the number of addresses still
 // *requested* from a block, not by the number the block yielded.  TestVerifC19RegressPartialBlock
 // keeps the reproducer as a regression test.
-
-// c19Known: the driver passes the open known findings in $VERIF_KNOWN.
-func c19Known(sig string) bool { return ev.Known(sig) }
 
 func (s *c19Scenario) drawHandle(t *rapid.T, allowNil, allowFresh bool) *string {
 	opts := []string{"h1", "h2", "h3"}
@@ -236,19 +226,6 @@ func (s *c19Scenario) drawOp(t *rapid.T, client int, id string) *c19Op {
 				rel.Handle = "h-wrong"
 			}
 			o.Rel = append(o.Rel, rel)
-		}
-		if len(o.Rel) > 2 && c19Known(c19SigSharedHandleCache) {
-			// Known finding: with more than two addresses ReleaseIPs pre-fetches all handles and
-			// hands the same KVPair objects to its per-block goroutines.  Keep the request on
-			// the un-cached path unless all addresses are in one block (one goroutine).
-			blk := map[string]bool{}
-			for _, r := range o.Rel {
-				blk[c19BlockOf(r.Address)] = true
-			}
-			if len(blk) > 1 {
-				o.Rel = o.Rel[:2]
-				s.excluded2++
-			}
 		}
 	case c19ReleaseByHandle:
 		hs := append([]string{"h1", "h2", "h3"}, s.liveHandles()...)
@@ -425,27 +402,6 @@ func (s *c19Scenario) checkHandles(when string, final bool) {
 			}
 		}
 	}
-	if c19Known(c19SigAssignIPConflict) {
-		// Known finding: every CAS conflict on the block write of AssignIP(handle) leaves the
-		// handle record one too high.  Tolerate an over-count on exactly those handles.
-		for _, c := range s.r.sched.Trace() {
-			if c.Result != "conflict" && c.Result != "injected-conflict" {
-				continue
-			}
-			parts := strings.Split(c.ID, "|")
-			if len(parts) != 5 || parts[3] != "Update" || !strings.Contains(parts[4], "/assignment/") {
-				continue
-			}
-			for _, o := range s.r.ops {
-				if o.ID == parts[0] && o.Kind == c19AssignIP && o.Handle != nil {
-					if !tainted[*o.Handle] {
-						s.knownHits[c19SigAssignIPConflict]++
-					}
-					tainted[*o.Handle] = true
-				}
-			}
-		}
-	}
 	ids := map[string]bool{}
 	for h := range counts {
 		ids[h] = true
@@ -579,12 +535,6 @@ func c19Run(t *rapid.T, rec *ev.Recorder, mix [c19NumKinds]int, fw c19FaultWeigh
 	s.drain()
 
 	// Evidence.
-	for i := 0; i < s.excluded2; i++ {
-		rec.Excluded(c19SigSharedHandleCache)
-	}
-	if s.knownHits[c19SigAssignIPConflict] > 0 {
-		rec.Excluded(c19SigAssignIPConflict)
-	}
 	tr := s.r.sched.Trace()
 	conflicts := 0
 	blockClients := map[string]map[int]bool{}
@@ -719,10 +669,10 @@ func TestVerifC19RegressPartialBlock(t *testing.T) {
 	}
 }
 
-// TestVerifC19ConfirmSharedHandleCacheDoubleDecrement is the deterministic reproducer of the
-// known finding c19SigSharedHandleCache.  It FAILS while the defect is present.  No faults; one
+// TestVerifC19RegressSharedHandleCache is the deterministic reproducer of the (fixed) finding
+// c19-releaseips-shared-handle-cache-double-decrement, kept as a regression test.  No faults; one
 // ReleaseIPs call; the only freedom used is the order of the two per-block goroutines.
-func TestVerifC19ConfirmSharedHandleCacheDoubleDecrement(t *testing.T) {
+func TestVerifC19RegressSharedHandleCache(t *testing.T) {
 	ev.Quiet()
 	w := c19NewWorld([]v3.IPPool{c19Pool("pool4", c19PoolV4, 30), c19Pool("pool6", c19PoolV6, 126)}, nil)
 	w.addNode("n1", nil)
@@ -817,10 +767,10 @@ func c19Drive(t *testing.T, sched *memds.Scheduler, pick func(calls []*memds.Cal
 	}
 }
 
-// TestVerifC19ConfirmAssignIPConflictHandleOvercount is the deterministic reproducer of the
-// known finding c19SigAssignIPConflict.  It FAILS while the defect is present.  No faults: two
-// AssignIP calls for different addresses of one block overlap.
-func TestVerifC19ConfirmAssignIPConflictHandleOvercount(t *testing.T) {
+// TestVerifC19RegressAssignIPConflict is the deterministic reproducer of the (fixed) finding
+// c19-assignip-cas-retry-handle-overcount, kept as a regression test.  No faults: two AssignIP
+// calls for different addresses of one block overlap.
+func TestVerifC19RegressAssignIPConflict(t *testing.T) {
 	ev.Quiet()
 	w := c19NewWorld([]v3.IPPool{c19Pool("pool4", c19PoolV4, 30)}, nil)
 	w.addNode("n1", nil)
